@@ -94,6 +94,14 @@ class Host(HostBase):
                     continue
                 params = {a.arg for a in init.node.args.args[1:] + init.node.args.kwonlyargs}
                 needed = {n.id for n in ast.walk(val) if isinstance(n, ast.Name) and n.id in params}
+                # a value computed by package code from the compile-time structure (a helper, a method of the query):
+                # the harness-made object stands for every such structure, so the value is an unknown of whatever
+                # the constructor can produce; only simple expressions over the attributes are evaluated
+                SIMPLE_CALLS = {"str", "int", "len", "abs", "bool", "float", "tuple", "slice", "repr", "min", "max", "frozenset", "list"}
+                if any(isinstance(n, ast.Call) and not (isinstance(n.func, ast.Name) and n.func.id in SIMPLE_CALLS) for n in ast.walk(val)):
+                    r = self.i.new_opaque(f"computed-at-construction:{v.cls.name}.{name}")
+                    v.attrs[name] = r
+                    return r
                 if not all(p in v.attrs for p in needed):
                     raise self.unsupported(node, f"harness-made {v.cls.name} has no value for '{name}', which its constructor computes from {sorted(needed - set(v.attrs))}")
                 from .absint import Frame
